@@ -20,7 +20,8 @@ META = {
              "isotropic; N in 8..180 uniform directions (start 0 or arbitrary); batch shapes (), (nf,), (nt,nf), "
              "(nt,nx,nf); all four solver variants; plus 1D->2D->1D round trips of generated spectra. "
              "Non-trivial = resultant R>0.05 (not isotropic); distinct = sha1 of the case."
-             " The direction grid is passed reduced to [0,360) (wrapping inside the array for t0>0), monotone from -180, or monotone from 270; round trips also convert the same object again after its densities were replaced in place."),
+             " The direction grid is passed reduced to [0,360) (wrapping inside the array for t0>0), monotone from -180, or monotone from 270; round trips also convert the same object again after its densities were replaced in place."
+             " A third of the distribution cases follow an earlier call with optional solver settings."),
     "assumptions": [
         "non-negativity slack -1e-15*max(D); normalisation |sum D*dtheta - 1| <= 1e-9 per frequency",
         "batch independence: the batch element equals the one-element call within 1e-9 of the distribution maximum for the closed-form variants (MEM, MEM2 approximate) and within 5e-2 for the iterative ones where they converged (one Newton step at the 0.01 stopping threshold) (fastmath SIMD reductions are alignment dependent at the 1-ulp level, so bit-for-bit equality is not stable across machines) and is not compared where an iterative solver did not converge (unrealisable moments: the 100-iteration path amplifies the last-bit difference between the strided batch slice and the contiguous single array chaotically - 11 % at N=8, then 90 % at N=180 were observed, with identical results for every batch of two or more and for repeated single calls); such cases are counted as batch_comparison_skipped_solver_not_converged",
